@@ -64,8 +64,8 @@ Proof.
   unfold renumbering. split; [|split].
   - (* injective *)
     intros i j E.
-    destruct (Nat.lt_ge_cases (N.to_nat i) (List.length l)) as [Hi|Hi];
-      destruct (Nat.lt_ge_cases (N.to_nat j) (List.length l)) as [Hj|Hj].
+    destruct (PeanoNat.Nat.lt_ge_cases (N.to_nat i) (List.length l)) as [Hi|Hi];
+      destruct (PeanoNat.Nat.lt_ge_cases (N.to_nat j) (List.length l)) as [Hj|Hj].
     + rewrite (pi_of_list_in l i 0%N Hi), (pi_of_list_in l j 0%N Hj) in E.
       apply N2Nat.inj. exact (proj1 (NoDup_nth l 0%N) Hnd _ _ Hi Hj E).
     + pose proof (pi_of_list_in_range l i Hr Hi) as Hlt.
@@ -75,7 +75,7 @@ Proof.
     + rewrite (pi_of_list_out l i Hi), (pi_of_list_out l j Hj) in E. exact E.
   - (* range *)
     intros i.
-    destruct (Nat.lt_ge_cases (N.to_nat i) (List.length l)) as [Hi|Hi].
+    destruct (PeanoNat.Nat.lt_ge_cases (N.to_nat i) (List.length l)) as [Hi|Hi].
     + pose proof (pi_of_list_in_range l i Hr Hi) as Hlt. split; intros _; [exact Hlt|lia].
     + rewrite (pi_of_list_out l i Hi). reflexivity.
   - (* onto *)
